@@ -645,6 +645,26 @@ def make_unsorted_names_case(seed, fmt="picosvg", share=False):
     return {"id": f"unsorted-names:{fmt}:{int(share)}:{seed}", "seed": seed, "fmt": fmt, "svgs": svgs, "config": cfg, "codepoints": cps, "family": "unsorted-names"}
 
 
+def make_layout_reorder_case(seed, fmt="picosvg"):
+    """an OT-SVG build whose glyphs get re-ordered (input order is not name order, first and last glyph share a shape) while the feature file carries
+    coverage-based rules of its own: chaining contextual substitution (format 3, three coverages), reverse chaining, a multi-glyph single substitution"""
+    import random
+    from nanoemoji.glyph import glyph_name
+
+    r = random.Random(seed)
+    case = make_unsorted_names_case(seed, fmt, share=True)
+    names = [glyph_name(tuple(c)) for c in case["codepoints"]]
+    a, b, c = names[0], names[1], names[-1]
+    rules = [f"lookup L1 {{ sub {a} by {b}; sub {c} by {b}; }} L1;",
+             f"feature calt {{ sub [{a} {c}]' lookup L1 [{b} {c} {a}]; }} calt;"]
+    if r.random() < 0.6:
+        rules.append(f"feature rvrn {{ rsub [{a} {b}] [{c} {a}]' by [{b} {a}]; }} rvrn;" if False else f"feature ss01 {{ sub [{a} {c} {b}] by [{b} {a} {c}]; }} ss01;")
+    case["extra_fea"] = "\n" + "\n".join(rules) + "\n"
+    case["id"] = case["id"].replace("unsorted-names", "layout-reorder")
+    case["family"] = "layout-reorder"
+    return case
+
+
 def make_shared_gradient_case(seed, fmt="picosvg"):
     """glyphs that share NO outline (so they end up in different OT-SVG documents) but use identical gradient definitions"""
     import random
@@ -698,7 +718,7 @@ def build(case, picosvgs=None, keep=None):
     try:
         cps = [tuple(c) for c in case["codepoints"]]
         fea = tmp / "f.fea"
-        fea.write_text(features.generate_fea([c for c in cps if c]))
+        fea.write_text(features.generate_fea([c for c in cps if c]) + case.get("extra_fea", ""))
         names = case.get("glyph_names") or [None] * len(cps)   # optional explicit glyph names (".notdef" with no code points)
         cfg_fields = dict(case["config"])
         tr = cfg_fields.pop("transform", None)
